@@ -3,6 +3,7 @@ package props
 import (
 	"fmt"
 	"go/constant"
+	"sort"
 	"strings"
 
 	"golang.org/x/tools/go/ssa"
@@ -18,8 +19,9 @@ func runC17(c *Ctx) {
 	r.Explanation = "The merge algebra of C17, decided by shape: in NameEntry.Merge every store to Name / Model / OS / Manufacturer takes the like-named field of the argument and is control dependent on 'argument field non-empty and different from the current value' " +
 		"(so a known attribute is never erased, and a second merge of the same entry changes nothing); the returned 'modified' flag is true exactly on the paths that executed one of these stores (φ chain: constant true on the edge out of each store block, otherwise the previous value, initially false). " +
 		"Every Host.Update*Name stores the merged entry into its own field, and merges it into the MAC entry's copy only when the merge reported a change, with the row lock held for writing. " +
-		"Not decided: equality of decoded DNS names/records with an independent DNS implementation (decode robustness is C08's); Type and Expire are overwritten by design and excluded."
-	r.Rule("merge", "Merge overwrites an attribute only with a different non-empty value, and reports exactly those changes", 5)
+		"Decode side, one clause only: a rejecting length guard in layer_dns.go whose bound is affine in the same values as an access it dominates is not stricter than the largest such access (a message that ends exactly at a field boundary is not refused). " +
+		"Not decided: equality of decoded DNS names/records with an independent DNS implementation beyond that (decode robustness is C08's); Type and Expire are overwritten by design and excluded."
+	r.Rule("merge", "Merge overwrites an attribute only with a different non-empty value, and reports exactly those changes", 6)
 	r.Rule("update", "Update*Name stores the merged entry and propagates it to the MAC entry only on change, under the row lock", 5)
 
 	merge := c.P.Method("", "NameEntry", "Merge")
@@ -63,6 +65,9 @@ func runC17(c *Ctx) {
 	// the modified flag
 	st := core.Violated
 	det := "the second result of Merge is not a φ chain over the attribute blocks"
+	nRet, nGood := 0, 0
+	var bad, entryWhy []string
+	entryOK := true
 	core.EachInstr(merge, func(i ssa.Instruction) {
 		ret, ok := i.(*ssa.Return)
 		if !ok || len(ret.Results) != 2 {
@@ -115,12 +120,29 @@ func runC17(c *Ctx) {
 				why = append(why, "changing "+a+" does not set modified")
 			}
 		}
+		nRet++
 		if okChain {
-			st, det = core.Proved, ""
+			nGood++
 		} else {
-			det = strings.Join(dedupStrings(why), "; ")
+			bad = append(bad, why...)
+		}
+		// the merged entry returned is the receiver's copy (with the stores above), never the argument wholesale
+		if norm(ret.Results[0]) != "local(e)" {
+			entryOK = false
+			entryWhy = append(entryWhy, "a return hands back "+norm(ret.Results[0])+" at "+c.P.Pos(core.PosOf(ret)))
 		}
 	})
+	if nRet > 0 && nGood == nRet {
+		st, det = core.Proved, ""
+	} else if nRet > 0 {
+		det = strings.Join(dedupStrings(bad), "; ")
+	}
+	est := core.Proved
+	if !entryOK || nRet == 0 {
+		est = core.Violated
+	}
+	r.Add(core.Obligation{Rule: "merge", Key: "merge result entry", Func: core.FuncName(merge), Pos: c.P.Pos(merge.Pos()), Status: est,
+		Basis: "every return hands back the receiver's copy, changed only by the guarded attribute stores", Detail: "Merge does not always return the receiver's own copy, so attributes the argument lacks are erased: " + strings.Join(entryWhy, "; ")})
 	r.Add(core.Obligation{Rule: "merge", Key: "merge modified flag", Func: core.FuncName(merge), Pos: c.P.Pos(merge.Pos()), Status: st,
 		Basis: "modified is true exactly on the paths that stored an attribute", Detail: det})
 
@@ -198,5 +220,68 @@ func runC17(c *Ctx) {
 		}
 	}
 	r.Extra["trim_calls_with_constant_cutset"] = nTrim
+
+	// decode side, one structural clause: a length guard of the DNS decoder that rejects a message must be needed by
+	// an access it protects (guardtight.go). `if index+2 >= len(data) { return err }` before `data[index:index+2]`
+	// refuses a name whose compression pointer sits in the last two octets of the message.
+	r.Rule("decode-guards", "rejecting length guards in the DNS decoder are not stricter than every access they protect", 4)
+	var unmatched []string
+	seenKey := map[string]int{}
+	for _, fn := range c.P.LibFunctions() {
+		if !strings.HasPrefix(c.P.Pos(fn.Pos()), "layer_dns.go:") {
+			continue
+		}
+		for _, g := range tightGuards(fn) {
+			key := fmt.Sprintf("decode-guards %s %s vs len(%s)", core.FuncName(fn), g.L.String(), norm(g.S))
+			seenKey[key]++
+			if n := seenKey[key]; n > 1 {
+				key = fmt.Sprintf("%s #%d", key, n)
+			}
+			m, has := g.maxSlack()
+			if !has {
+				unmatched = append(unmatched, key)
+				continue
+			}
+			st := core.Proved
+			det := ""
+			if m < 1 {
+				st = core.Violated
+				var acc []string
+				for _, a := range g.Matched {
+					acc = append(acc, a.Text)
+				}
+				det = fmt.Sprintf("the guard rejects when %s - len(%s) >= %d, but the accesses it protects (%s) stay inside the message up to %d byte(s) beyond that: a well-formed message whose field ends exactly at the end of the message is refused",
+					g.L.String(), norm(g.S), g.K, strings.Join(acc, ", "), 1-m)
+			}
+			r.Add(core.Obligation{Rule: "decode-guards", Key: key, Func: core.FuncName(fn), Pos: c.P.Pos(core.PosOf(g.If)), Status: st,
+				Basis: fmt.Sprintf("reject ⇔ %s-len ≥ %d; largest protected access needs exactly that (slack %d)", g.L.String(), g.K, m), Detail: det})
+		}
+	}
+	sort.Strings(unmatched)
+	r.Extra["decode_guards_without_affine_match"] = unmatched
+
+	// decoded names live in the caller's scratch buffer: they are consumed before the scratch is decoded into again
+	r.Rule("scratch-live", "a decoded name is not used after its scratch buffer has been handed to another decode", 3)
+	sa := newScratchAnalysis(c)
+	r.Extra["scratch_summaries"] = sa.describe()
+	pairN := map[string]int{}
+	for _, f := range sa.check() {
+		key := fmt.Sprintf("scratch-live %s %s then %s", core.FuncName(f.Fn), shortCallee(f.View), shortCallee(f.Clobber))
+		pairN[key]++
+		if n := pairN[key]; n > 1 {
+			key = fmt.Sprintf("%s #%d", key, n)
+		}
+		st := core.Proved
+		det := ""
+		pos := core.PosOf(f.Clobber.(ssa.Instruction))
+		if f.Use != nil {
+			st = core.Violated
+			pos = core.PosOf(f.Use)
+			det = fmt.Sprintf("the value decoded by %s at %s lives in the scratch buffer that %s at %s overwrites, and it is still used afterwards (%d use(s), first at %s): the stored name is the later name's bytes",
+				shortCallee(f.View), c.P.Pos(core.PosOf(f.View.(ssa.Instruction))), shortCallee(f.Clobber), c.P.Pos(core.PosOf(f.Clobber.(ssa.Instruction))), f.UseCount, c.P.Pos(core.PosOf(f.Use)))
+		}
+		r.Add(core.Obligation{Rule: "scratch-live", Key: key, Func: core.FuncName(f.Fn), Pos: c.P.Pos(pos), Status: st,
+			Basis: "no use of the earlier decoded name is reachable from the later decode into the same scratch", Detail: det})
+	}
 
 }
